@@ -200,5 +200,140 @@ func (p *Prog) genRoles(names []string) string {
 		fmt.Fprintf(&b, "\t%q: {Recv: %q, Sig: %q,\n\t\tConsts: %#v,\n\t\tCalls: %#v},\n", n, fp.Recv, fp.Sig, fp.Consts, fp.Calls)
 	}
 	b.WriteString("}\n")
+	b.WriteString(p.genFields())
 	return b.String()
+}
+
+// ---------- struct fields ----------
+
+// fieldAlias maps a renamed unexported field of a module struct to the name it had in the pinned tree.
+var fieldAlias = map[*types.Var]string{}
+
+func fieldIs(fv *types.Var, name string) bool {
+	if fv == nil {
+		return false
+	}
+	if a, ok := fieldAlias[fv]; ok {
+		return a == name
+	}
+	return fv.Name() == name
+}
+
+func canonFieldName(fv *types.Var) string {
+	if a, ok := fieldAlias[fv]; ok {
+		return a
+	}
+	return fv.Name()
+}
+
+func typeStringFull(t types.Type) string {
+	return types.TypeString(t, func(p *types.Package) string { return p.Path() })
+}
+
+// resolveFields binds fields whose recorded name is gone to the single new field of identical type.
+func (p *Prog) resolveFields() {
+	for _, pk := range p.Pkgs {
+		sc := pk.Types.Scope()
+		for _, nm := range sc.Names() {
+			tn, ok := sc.Lookup(nm).(*types.TypeName)
+			if !ok {
+				continue
+			}
+			st, ok := tn.Type().Underlying().(*types.Struct)
+			if !ok {
+				continue
+			}
+			rec, ok := fieldTable[pk.PkgPath+"."+nm]
+			if !ok {
+				continue
+			}
+			have := map[string]*types.Var{}
+			for i := 0; i < st.NumFields(); i++ {
+				have[st.Field(i).Name()] = st.Field(i)
+			}
+			recorded := map[string]bool{}
+			for _, r := range rec {
+				recorded[r[0]] = true
+			}
+			for _, r := range rec {
+				if have[r[0]] != nil {
+					continue
+				}
+				var cands []*types.Var
+				for i := 0; i < st.NumFields(); i++ {
+					f := st.Field(i)
+					if !recorded[f.Name()] && typeStringFull(f.Type()) == r[1] {
+						cands = append(cands, f)
+					}
+				}
+				if len(cands) == 1 {
+					fieldAlias[cands[0]] = r[0]
+					p.Renamed = append(p.Renamed, fmt.Sprintf("field %s.%s is now %s (the only new field of type %s)", nm, r[0], cands[0].Name(), r[1]))
+				}
+			}
+		}
+	}
+}
+
+func (p *Prog) genFields() string {
+	var b strings.Builder
+	b.WriteString("\nvar fieldTable = map[string][][2]string{\n")
+	for _, pk := range p.Pkgs {
+		sc := pk.Types.Scope()
+		for _, nm := range sc.Names() {
+			tn, ok := sc.Lookup(nm).(*types.TypeName)
+			if !ok {
+				continue
+			}
+			st, ok := tn.Type().Underlying().(*types.Struct)
+			if !ok || st.NumFields() == 0 {
+				continue
+			}
+			fmt.Fprintf(&b, "\t%q: {", pk.PkgPath+"."+nm)
+			for i := 0; i < st.NumFields(); i++ {
+				fmt.Fprintf(&b, "{%q, %q}, ", st.Field(i).Name(), typeStringFull(st.Field(i).Type()))
+			}
+			b.WriteString("},\n")
+		}
+	}
+	b.WriteString("}\n")
+	return b.String()
+}
+
+// ownerRole attributes a helper that is not itself a known role to the single role function that
+// (transitively, through other non-role helpers) calls it — so that a construct moved into a helper
+// extracted from a role keeps being reported under that role's name.
+func (p *Prog) ownerRole(fn *ssa.Function) *ssa.Function {
+	seen := map[*ssa.Function]bool{}
+	var up func(f *ssa.Function, d int) map[*ssa.Function]bool
+	up = func(f *ssa.Function, d int) map[*ssa.Function]bool {
+		out := map[*ssa.Function]bool{}
+		if f == nil || seen[f] || d > 4 {
+			return out
+		}
+		seen[f] = true
+		root := rootFunc(f)
+		if _, isRole := roleTable[shortName(root)]; isRole {
+			out[root] = true
+			return out
+		}
+		callers := p.Callers(root)
+		if len(callers) == 0 {
+			out[root] = true
+			return out
+		}
+		for _, cs := range callers {
+			for o := range up(cs.Parent(), d+1) {
+				out[o] = true
+			}
+		}
+		return out
+	}
+	owners := up(fn, 0)
+	if len(owners) == 1 {
+		for o := range owners {
+			return o
+		}
+	}
+	return rootFunc(fn)
 }
